@@ -431,3 +431,46 @@ func diffByID(a, b *Value, path string) string {
 	}
 	return diff(a, b, path)
 }
+
+// DiffEmptyTypes compares the element / key types that empty containers carry on the wire (Diff and
+// DiffFieldsByID leave them out); a and b must already be equal under DiffFieldsByID.
+func DiffEmptyTypes(a, b *Value) string { return diffEmptyTypes(a, b, "$") }
+
+func diffEmptyTypes(a, b *Value, path string) string {
+	if a == nil || b == nil || a.K != b.K {
+		return ""
+	}
+	switch a.K {
+	case STRUCT:
+		for _, f := range a.Fields {
+			if o := b.Field(f.ID); o != nil {
+				if d := diffEmptyTypes(f.V, o, fmt.Sprintf("%s.%d", path, f.ID)); d != "" {
+					return d
+				}
+			}
+		}
+	case LIST, SET:
+		if len(a.Elems) == 0 && len(b.Elems) == 0 && a.ET != b.ET {
+			return fmt.Sprintf("%s: empty %v of %v vs of %v", path, a.K, a.ET, b.ET)
+		}
+		for i := range a.Elems {
+			if i < len(b.Elems) {
+				if d := diffEmptyTypes(a.Elems[i], b.Elems[i], fmt.Sprintf("%s[%d]", path, i)); d != "" {
+					return d
+				}
+			}
+		}
+	case MAP:
+		if len(a.Elems) == 0 && len(b.Elems) == 0 && (a.ET != b.ET || a.KT != b.KT) {
+			return fmt.Sprintf("%s: empty map<%v,%v> vs map<%v,%v>", path, a.KT, a.ET, b.KT, b.ET)
+		}
+		for i := range a.Elems {
+			if i < len(b.Elems) {
+				if d := diffEmptyTypes(a.Elems[i], b.Elems[i], fmt.Sprintf("%s{%d}", path, i)); d != "" {
+					return d
+				}
+			}
+		}
+	}
+	return ""
+}
